@@ -113,6 +113,7 @@ type Op struct {
 	// milliseconds and is abandoned (nothing is delivered, the context's error is returned) when the
 	// context it was given is cancelled first.  Missing = 0 = answers at once (the context is still
 	// looked at on entry).
+	SignLat  uint64   `json:"sign_lat,omitempty"` // round: every signing request (a remote signer)
 	RelayLat []LatIn  `json:"relay_lat,omitempty"`
 	NodeLat  []uint64 `json:"node_lat,omitempty"` // round: secondary nodes; prepare: preparer nodes
 }
@@ -500,13 +501,13 @@ func (e *env) kindOf(addr uint64) string {
 
 type regSigner struct{ e *env }
 
-func (s regSigner) SignValidatorRegistration(_ context.Context, acc e2wtypes.Account, reg *builderapi.VersionedValidatorRegistration) (phase0.BLSSignature, error) {
+func (s regSigner) SignValidatorRegistration(ctx context.Context, acc e2wtypes.Account, reg *builderapi.VersionedValidatorRegistration) (phase0.BLSSignature, error) {
 	e := s.e
 	e.mu.Lock()
-	defer e.mu.Unlock()
 	a, ok := acc.(account)
 	if !ok || reg == nil || reg.V1 == nil {
 		e.note("signer called with a foreign account or an empty registration")
+		e.mu.Unlock()
 		return phase0.BLSSignature{}, errors.New("bad request")
 	}
 	so := SigObs{Acct: a.v.Acct, Fee: feeID(reg.V1.FeeRecipient), Gas: reg.V1.GasLimit, Pub: pubID(reg.V1.Pubkey), Stamp: e.stamp(reg.V1.Timestamp)}
@@ -518,7 +519,19 @@ func (s regSigner) SignValidatorRegistration(_ context.Context, acc e2wtypes.Acc
 			good = vi.Sign[k]
 		}
 	}
+	ms := e.op.SignLat
+	e.mu.Unlock()
+	// a remote signer: the request takes time and is abandoned when its context is cancelled; an
+	// abandoned request is a failed one that nobody scripted
+	if err := e.transit(ctx, fmt.Sprintf("sign:%d", a.v.Acct), ms); err != nil {
+		e.mu.Lock()
+		e.reqs = append(e.reqs, ReqObs{SigObs: so, OK: false})
+		e.mu.Unlock()
+		return phase0.BLSSignature{}, err
+	}
+	e.mu.Lock()
 	e.reqs = append(e.reqs, ReqObs{SigObs: so, OK: good})
+	e.mu.Unlock()
 	if !good {
 		return phase0.BLSSignature{}, errors.New("scripted signing failure")
 	}
@@ -725,6 +738,14 @@ func runInBubble(t *testing.T, in Input) Obs {
 		// every request of this operation has been answered or abandoned by then, even if they
 		// are all made one after the other
 		var total uint64
+		for _, vi := range op.Vals {
+			// at most one signing request per relay entry (real configurations: at most 4 relays)
+			n := uint64(4)
+			if vi.Res != nil {
+				n = uint64(len(vi.Res.Relays))
+			}
+			total += n * op.SignLat
+		}
 		for _, l := range op.RelayLat {
 			total += l.Ms
 		}
@@ -1177,6 +1198,10 @@ func inputTags(in Input) []string {
 				tags = addTag(tags, "slow-peer")
 			}
 		}
+		if op.SignLat > 0 {
+			tags = addTag(tags, "timed")
+			tags = addTag(tags, "signer-takes-time")
+		}
 		for k := range op.NodeLat {
 			if lat(k) > 0 {
 				tags = addTag(tags, "timed")
@@ -1373,7 +1398,7 @@ func TestC11(t *testing.T) {
 			}
 		}
 		for _, tg := range tags {
-			if strings.Contains(tg, "in-flight") || tg == "timed" || tg == "slow-peer" {
+			if strings.Contains(tg, "in-flight") || tg == "timed" || tg == "slow-peer" || tg == "signer-takes-time" {
 				col.Count("family:" + tg)
 			}
 		}
